@@ -372,3 +372,12 @@ def check(repo, rep, tier):
   rule_projection_formula(repo, rep)
   rule_init_flow(repo, rep)
   rule_diag(repo, rep)
+  # the iterations start from the caller's init, which they must leave
+  # untouched (FRESH rule of C17, MMC only)
+  from . import c17 as _c17
+  before = len(rep.obs)
+  _c17.rule_writes(repo, rep)
+  rep.obs[before:] = [o for o in rep.obs[before:]
+                      if o['construct'].startswith(('MMC.fit',
+                                                    'MMC_Supervised.fit'))]
+  rep.floors = [fl for fl in rep.floors if 'in-place' not in fl[0]]
